@@ -1,6 +1,7 @@
 INIT Init
 NEXT Next
 CONSTANTS
-  Part = "span"
+  Part = "cong"
+  Flaws = {"OriginalCongruenceLinear"}
   Thorough = FALSE
 INVARIANT ImplRefines_
